@@ -44,7 +44,7 @@ where
   F: FnMut(&Item) -> Duration,
   ThrottleObserver<O, SD, Item, F>: Observer<Item, Err>,
 {
-  type Unsub = S::Unsub;
+  type Unsub = ZipSubscription<S::Unsub, ObserverSlot<O>>;
 
   fn actual_subscribe(self, observer: O) -> Self::Unsub {
     let Self {
@@ -54,14 +54,34 @@ where
       edge,
     } = self;
 
-    source.actual_subscribe(ThrottleObserver {
-      observer: MutArc::own(Some(observer)),
+    let observer = MutArc::own(Some(observer));
+    let unsub = source.actual_subscribe(ThrottleObserver {
+      observer: observer.clone(),
       edge,
       duration_selector,
       trailing_value: MutArc::own(None),
       task_handler: TaskHandle::value_handle(NormalReturn::new(())),
       scheduler,
-    })
+    });
+    // the window task keeps a handle to the observer: unsubscribing must
+    // also empty that slot, or a pending trailing item is delivered later
+    ZipSubscription::new(unsub, ObserverSlot(observer))
+  }
+}
+
+/// The downstream observer slot shared with the pending window task, as a
+/// subscription: unsubscribing empties it.
+pub struct ObserverSlot<O>(MutArc<Option<O>>);
+
+impl<O> Subscription for ObserverSlot<O> {
+  #[inline]
+  fn unsubscribe(self) {
+    self.0.rc_deref_mut().take();
+  }
+
+  #[inline]
+  fn is_closed(&self) -> bool {
+    self.0.rc_deref_mut().is_none()
   }
 }
 
